@@ -119,11 +119,21 @@ def run_cases(ck: Check, n_small: int, n_large: int):
             k5, s5 = sf_raw(ScalarField(g2, np.transpose(data, perm)))
             if not same_multiset(k5, s5, k, s):
                 ck.fail(f"structure factor changes when the axes are permuted {perm} together with the grid", {**sig, "check": "sf_axis_perm_invariant"}, {**case, "perm": perm})
-        lam = rng.choice([0.01, 0.5, 3.0, 100.0])
+        # (also factors that differ from 1 by less than common floating-point tolerances, and boxes measured in a unit so small that every
+        # length is below numpy's ABSOLUTE tolerances: same shape, analysed one after the other in this process)
+        lam = rng.choice([0.01, 0.5, 3.0, 100.0, 1 + 2.0**-18, 1 - 2.0**-20, 1e-9, 2e-9])
         g3 = CartesianGrid([[b[0] * lam, b[1] * lam] for b in grid.axes_bounds], shape, periodic=True)
         k6, s6 = sf_raw(ScalarField(g3, data))
         if not np.allclose(k6 * lam, k, rtol=1e-12) or not np.allclose(s6, s, rtol=1e-12, atol=1e-15):
             ck.fail(f"wave numbers do not scale inversely with the grid size (factor {lam})", {**sig, "check": "k_scales_inverse"}, {**case, "lambda": lam})
+        if lam <= 2e-9:
+            # a second tiny box of the same shape, stretched by 2 relative to the first
+            g4 = CartesianGrid([[b[0] * lam * 2, b[1] * lam * 2] for b in grid.axes_bounds], shape, periodic=True)
+            k7, s7 = sf_raw(ScalarField(g4, data))
+            ck.count("tiny_boxes_same_shape_in_sequence")
+            if not np.allclose(k7 * lam * 2, k, rtol=1e-12) or not np.allclose(s7, s, rtol=1e-12, atol=1e-15):
+                ck.fail(f"wave numbers do not scale inversely with the grid size (boxes scaled by {lam} and then by {2 * lam}, same shape, same process)",
+                        {**sig, "check": "k_scales_inverse"}, {**case, "lambda": [lam, 2 * lam]})
         # smoothed variant: requested wave numbers, invariances, add_zero
         req = np.sort(np.array([rng.uniform(0.2, 1.0) * k.max() for _ in range(5)]))
         sm = rng.choice([0.3, "auto", 1.0])
